@@ -6,8 +6,8 @@
 // (frame builders come FIRST: the emitter's node numbers are global, so with this order an edit to a Matrix22/33/44 member that no frame
 //  builder uses leaves the text of Gen/C09Frame.lean — and the slow tree theorems about it — untouched)
 // ---------------------------------------------------------------- frame builders (Vec3::length opaque)
-// order and modules: nextFrame (Gen/C09Next) and Quat::setRotation (Gen/C09Quat) first and in their own modules, so that an edit to
-// another frame builder does not renumber them (their tree theorems take minutes to re-elaborate)
+// order and modules: nextFrame (Gen/C09Next), Quat::setRotation (Gen/C09Quat) and alignZAxisWithTargetDir (Gen/C09Align) first and in their
+// own modules, so that an edit to another frame builder does not renumber them (their tree theorems take minutes to re-elaborate)
 // nextFrame calls `acosf` whatever T is: the model's `acos` parameter stands for `x ↦ T(acosf(float(x)))`, so the
 // bitwise translator validation is run at float only (at double the tree's ACOS node would be evaluated by std::acos(double)).
 // It also normalises its tangent arguments in place (non-const references): they are returned as 2nd and 3rd result.
@@ -22,7 +22,7 @@ EXTRACT_FLOATONLY ("C09Next", fr_nextFrame, "Frame.nextFrame",
 // with Quat::setRotation as an opaque call of `Frame.quatSetRotation`.
 EXTRACT ("C09Quat", fr_quatSetRotation, "Frame.quatSetRotation", { IN (Quat, q); IN (Vec3, fromDir); IN (Vec3, toDir); q.setRotation (fromDir, toDir); c.out (q); })
 EXTRACT ("C09Quat", fr_quatToMatrix44, "Frame.quatToMatrix44", { IN (Quat, q); c.out (q.toMatrix44 ()); })
-EXTRACT ("C09Frame", fr_alignZ, "Frame.alignZAxisWithTargetDir",
+EXTRACT ("C09Align", fr_alignZ, "Frame.alignZAxisWithTargetDir",
          { IN (Vec3, targetDir); IN (Vec3, upDir); Matrix44<T> result (UNINITIALIZED); alignZAxisWithTargetDir (result, targetDir, upDir); c.out (result); })
 // rotationMatrixWithUpDir: extracted by sym_c09up.cpp (module C09Up) with alignZAxisWithTargetDir opaque (inlined: 1201 paths)
 EXTRACT ("C09Frame", fr_computeLocalFrame, "Frame.computeLocalFrame", { IN (Vec3, p); IN (Vec3, xDir); IN (Vec3, normal); c.out (computeLocalFrame (p, xDir, normal)); })
